@@ -58,6 +58,8 @@ pub use self::validated_cert::{CertValidationError, ValidatedCert};
 pub use self::validated_vote::{ValidatedVote, VoteValidationError};
 pub use self::vote::{FinalVote, NotarFallbackVote, NotarVote, SkipFallbackVote, SkipVote, Vote};
 pub use self::votor::Votor;
+#[cfg(feature = "verif-hooks")]
+pub use self::votor::VerifSlotSnapshot;
 use crate::consensus::block_producer::BlockProducer;
 use crate::crypto::{aggsig, signature};
 use crate::network::{RepairRequesterNetwork, RepairResponderNetwork, TransactionNetwork};
